@@ -41,7 +41,7 @@ def cases(tier, seed):
             if dn.prod(N) <= 50000:
                 break
         base = {'gen': 'cross', 'routine': routine, 'N': N, 'target': ['lowrank', 'lowrank', 'smooth'][(i // 4) % 3], 'R': gens.rank_profile(rng, d, 'rand', 4), 'eps': 10 ** rng.uniform(-10, -3),
-                'start': (i // 12) % 2 == 1, 'vseed': rng.randrange(2 ** 40)}
+                'start': (i // 12) % 2 == 1, 'tscale': [1.0, 1.0, 1e-7, 1.0, 1e5, 1e-9][(i // 4) % 6], 'vseed': rng.randrange(2 ** 40)}
         for j in range(k):
             c = dict(base)
             c['sidx'] = j
@@ -62,6 +62,7 @@ def run_case(case, ctx):
     else:
         grids = torch.meshgrid(*[torch.arange(m, dtype=dt) for m in N], indexing='ij')
         Tt = 1.0 / (2.0 + sum(grids))
+    Tt = Tt * float(case.get('tscale', 1.0))      # overall magnitude of the function values (a cut-off that is not relative to the norm shows at 1e-7 / 1e-9)
     # xfun enumerates entries with the FIRST index running fastest (i0 + N0*i1 + ...): flatten the table in that order
     Tflat = Tt.permute(list(range(d - 1, -1, -1))).reshape(-1)
     ctx.count('routine:' + routine)
@@ -74,7 +75,7 @@ def run_case(case, ctx):
         start = gens.make_tt(N, [1] + [rr.randint(1, 3) for _ in N[1:]] + [1], dt, 'gauss', g)
         ctx.count('start:user')
     key = '%s/%s' % (routine, case['target'])
-    what = '%s N=%s target=%s R=%s eps=%.2e start=%s seed-index %d' % (routine, N, case['target'], case['R'] if case['target'] == 'lowrank' else '-', eps, case['start'], case['sidx'])
+    what = '%s N=%s target=%s R=%s scale=%g eps=%.2e start=%s seed-index %d' % (routine, N, case['target'], case['R'] if case['target'] == 'lowrank' else '-', case.get('tscale', 1.0), eps, case['start'], case['sidx'])
     cb = {'calls': 0, 'rows': 0, 'bad': None, 'colmin': [10 ** 9] * d, 'colmax': [-1] * d}
 
     def flag(msg):
@@ -213,4 +214,4 @@ def run_case(case, ctx):
     if not err <= C_EPS * eps * nt + 1e3 * 2.3e-16 * nt:
         ctx.viol(key + '/clause=error>10eps', '%s: ||D(y)-T||/||T|| = %.3e = %.3g * eps; result ranks %s; callback invocations %d' % (what, err / nt, ratio, [int(r) for r in y.R], cb['calls']))
     if cb['calls'] > 0 and nt > 0:
-        ctx.nontrivial((routine, case['target'], tuple(N), tuple(case['R']), int(math.log10(eps)), case['start'], case['sidx']))
+        ctx.nontrivial((routine, case['target'], tuple(N), tuple(case['R']), int(math.log10(eps)), case['start'], case.get('tscale', 1.0), case['sidx']))
